@@ -243,6 +243,42 @@ func (e *C08Script) Run(ctx *core.Ctx, idx int) {
 			fail("C08.canary-resumes-on-unpause", fmt.Sprintf("%d Ready canary pods (want %d), state %s", rdy, wantCanary, state()))
 			return
 		}
+		if r.Intn(2) == 0 {
+			// paused a second time after the resume (the replica set now carries a Canary-Paused condition with status
+			// False that the resume left behind): the same holds as for the first pause
+			if err := w.Kubectl("canary-pause", "ns1", "foo"); err != nil {
+				fail("C08.script-command", "second canary-pause refused: "+err.Error())
+				return
+			}
+			for _, p := range w.DaemonPods("ns1", "foo") {
+				if kit.MarkerOfPod(p) == "B" {
+					w.DeletePod(p)
+					break
+				}
+			}
+			rounds(4)
+			b1 := nB()
+			rounds(6)
+			w.Advance(20 * time.Minute)
+			rounds(3)
+			ctx.Count("C08.script-holds-judged")
+			ctx.Count("C08.script-second-pauses-judged")
+			if nB() > b1 {
+				fail("C08.canary-paused-no-create", fmt.Sprintf("canary pods went from %d to %d during the second pause", b1, nB()))
+			}
+			if state() != v1.ExtendedDaemonSetStatusStateCanaryPaused {
+				fail("C08.state-reflects-pause", "state is "+string(state())+" after the second canary pause")
+			}
+			if in, _, _ := w.CanaryInProgress("ns1", "foo"); !in {
+				fail("C08.paused-canary-not-promoted", "the canary ended during the second pause")
+				return
+			}
+			if err := w.Kubectl("canary-unpause", "ns1", "foo"); err != nil {
+				fail("C08.script-command", "second canary-unpause refused: "+err.Error())
+				return
+			}
+			rounds(6)
+		}
 		// explicit validation resumes the rollout
 		if err := w.Kubectl("canary-validate", "ns1", "foo"); err != nil {
 			fail("C08.script-command", "canary-validate refused: "+err.Error())
